@@ -202,7 +202,7 @@ LinesPair == {KV(A, IntV(1)), KV(A, IntV(2))}
 \* ---- input menus ----------------------------------------------------------
 Lines4 == {KV(A, IntV(1)), KV(A, IntV(2)), KV(B, IntV(1)), KV(Null, IntV(1)), KV(A, Null), KV(Null, Null), Garbage}
 LinesAgg == {KV(A, IntV(1)), KV(A, IntV(2)), KV(B, IntV(-1)), KV(B, Null), KV(Null, IntV(0)), KV(A, Null), Near}
-LinesNoise == {KV(A, IntV(1)), KV(B, IntV(2)), KV(A, Null), KV(Null, Null), Garbage, Empty, Near}
+LinesNoise == {KV(A, IntV(1)), KV(B, IntV(2)), KV(A, Null), KV(Null, IntV(3)), KV(Null, Null), Garbage, Empty, Near}
 LongJoin == [i \in 1..34 |-> IF i % 2 = 0 THEN KV(A, IntV(i)) ELSE KV(B, IntV(i))]
 JoinSetsLong == {LongJoin}
 Lines3 == {KV(A, IntV(1)), KV(B, IntV(2)), KV(Null, IntV(0)), KV(A, Null), Garbage}
